@@ -9,7 +9,7 @@
  *      ops     : in:cap:dir;in:cap:dir;...  (dir 0 continue 1 flush 2 end ; in = bytes offered, cap = output capacity)
  *      -> <id> OK <framehex> <calls>   calls = consumed:produced:ret(or E<name>);...   (stops at first error)
  *  D <id> <path> <flags> <dicthex|-> <framehex|-> <capacity>              -> <id> OK <hex> [extra] | <id> ERR <name>
- *      path    : oneshot | dctx | usingDict | ddict | ddictref | loaddict | refprefix | multiddict
+ *      path    : oneshot | dctx | usingDict | ddict | ddictwarm | ddictref | loaddict | refprefix | multiddict
  *                | stream:<inseg>:<outseg> | stableout:<inseg> | continue | inplace | block
  *      flags   : "-" or id:value,... (ZSTD_DCtx_setParameter)
  *  I <id> <framehex>       inspectors -> <id> OK fcs=<..> bound=<..> csize=<..> margin=<..> did=<..> dsize=<..>
@@ -176,6 +176,11 @@ static void cmd_D(char** t) {
         ZSTD_DDict* dd = !strcmp(path, "ddict") ? ZSTD_createDDict(d, dn) : ZSTD_createDDict_byReference(d, dn);
         r = dd ? ZSTD_decompress_usingDDict(dc, out, cap, f, fn, dd) : (size_t)-ZSTD_error_memory_allocation; produced = r;
         ZSTD_freeDDict(dd);
+    } else if (!strcmp(path, "ddictwarm")) {   /* same DCtx + DDict used twice: the second decode starts from a warm dictionary */
+        ZSTD_DDict* dd = ZSTD_createDDict(d, dn);
+        r = dd ? ZSTD_decompress_usingDDict(dc, out, cap, f, fn, dd) : (size_t)-ZSTD_error_memory_allocation;
+        if (!ZSTD_isError(r)) { memset(out, 0, cap); r = ZSTD_decompress_usingDDict(dc, out, cap, f, fn, dd); }
+        produced = r; ZSTD_freeDDict(dd);
     } else if (!strcmp(path, "loaddict")) { r = ZSTD_DCtx_loadDictionary(dc, d, dn);
         if (!ZSTD_isError(r)) { r = ZSTD_decompressDCtx(dc, out, cap, f, fn); produced = r; }
     } else if (!strcmp(path, "refprefix")) { r = ZSTD_DCtx_refPrefix(dc, d, dn);
